@@ -252,10 +252,10 @@ let hdr_op (a : string array) : string =
   | Crash c -> "crash " ^ crash_name c
 
 (* ---------- locale names (C19) ---------- *)
-let opt_s = function None -> "-" | Some x -> out_str x
+let lg_opt_s = function None -> "-" | Some x -> out_str x
 let arg_opt (s : string) : n list option = if s = "-" then None else Some (arg_str s)
 let lang_s (l : language) : string =
-  "ll=" ^ out_str l.l_lang ^ " cc=" ^ opt_s l.l_terr ^ " enc=" ^ opt_s l.l_enc ^ " mod=" ^ opt_s l.l_mod
+  "ll=" ^ out_str l.l_lang ^ " cc=" ^ lg_opt_s l.l_terr ^ " enc=" ^ lg_opt_s l.l_enc ^ " mod=" ^ lg_opt_s l.l_mod
   ^ " str=" ^ out_str (str_language l)
 let lerr_s = function LSyntax -> "err syntax" | LFixCodes -> "err fix"
 let id_cfg = gen_cfg (fun x -> x)
@@ -644,7 +644,7 @@ let handle (op : string) (a : string array) : string =
      | Crash c -> "crash " ^ crash_name c)
   | "lpath" ->
     let p = arg_str a.(0) in
-    "dir=" ^ opt_s (lcmessages_parent p) ^
+    "dir=" ^ lg_opt_s (lcmessages_parent p) ^
     (if lg_endswith p s_dot_po then
        " po root=" ^ out_str (po_stem p)
      else " notpo")
